@@ -67,7 +67,7 @@ def shards(tier):
 
 def floors(tier):
     f = {"histories": 400, "operations": 5000, "probes_compared": 30000, "objects_probed_after_5plus_later_ops": 1000,
-         "versioned_create_without_id": 50, "untouched_twins_probed_later": 200, "named_type_verdicts": 5000, "versioned_create_reusing_a_name": 60}
+         "versioned_create_without_id": 50, "untouched_twins_probed_later": 200, "named_type_verdicts": 5000, "versioned_create_reusing_a_name": 60, "versioned_create_with_private_scheme_id": 40, "ambient_snapshots_compared": 4000}
     for op in ("redefine", "redefine_many", "remove", "extend_override", "extend_typechecker", "extend_nochange", "create",
                "create_version", "extend_version", "create_default_types", "validator_types", "checks", "cls_checks", "formats_subset", "validator_twins", "validator_named_types"):
         f["op:" + op] = 150
@@ -289,6 +289,8 @@ def run_history(rec, ops, base_draft):
         st.add("F", getattr(jsonschema, "draft%d_format_checker" % d), "draft%d_format_checker" % d)
     st.add("F", fc0, "FormatChecker()#0")
     case = {"base_draft": base_draft, "history": ops}
+    from vf.obs import ambient
+    amb0 = ambient.snapshot()
     rec.count("histories")
     rec.case(case)
     for n, op in enumerate(ops):
@@ -417,6 +419,10 @@ def run_history(rec, ops, base_draft):
                         idk = "id" if "id" in meta else "$id"
                         meta[idk] = ("http://vf.example/meta/future-%d" % (op["r"] % 3)) if rng.random() < 0.6 else \
                             "http://vf.example/meta/%d/%d" % (op["r"], n)
+                        if rng.random() < 0.25:
+                            # an id under a scheme of the caller's own (nothing in the standard library knows it)
+                            meta[idk] = "%s://meta.example/v%d/schema" % (rng.choice(["acme", "x-vf-meta", "tag+json"]), n)
+                            rec.count("versioned_create_with_private_scheme_id")
                         kwargs["version"] = "vf%d_%d" % (op["r"], n)
                         if rng.random() < 0.4:
                             # a version NAME that is already taken (a bundled draft's, or one an earlier operation used): the
@@ -537,6 +543,15 @@ def run_history(rec, ops, base_draft):
                     st.add("F", FormatChecker(formats=names), "FormatChecker(formats=%r)" % names)
         except Exception as e:
             rec.violation("operation-raised", dict(case, step=n), "%s: %s" % (type(e).__name__, str(e)[:200]))
+            return
+        # deriving, registering and redefining are confined to the library's own objects: the tables and settings of the
+        # standard library that every other object in the process goes by (urllib's scheme tables, the decimal context, ...)
+        # are what they were
+        amb = ambient.snapshot()
+        rec.count("ambient_snapshots_compared")
+        if amb != amb0:
+            rec.violation("ambient-state-changed", dict(case, step=n, operation=kind),
+                          "after step %d (%s): %r" % (n, kind, {k: (str(a)[-80:], str(b)[-80:]) for k, (a, b) in ambient.diff(amb0, amb).items()}))
             return
         # probe every previously existing object
         for r in st.objs:
